@@ -37,6 +37,7 @@ type c04Case struct {
 	Mount     FrontMode
 	Addrs     string // one | live-dead | dead-live
 	Baseline  string // synced | set-latest
+	MaxAsync  int    // >0: MaxAsyncConcurrency of the subscriber (announced cases)
 }
 
 func (k c04Case) String() string {
@@ -44,7 +45,7 @@ func (k c04Case) String() string {
 	for _, f := range k.Faults {
 		fs = append(fs, fmt.Sprintf("%s@%d", f.Kind, f.At))
 	}
-	return fmt.Sprintf("faults=[%s] announced=%v seg=%d mount=%s addrs=%s baseline=%s", strings.Join(fs, ","), k.Announced, k.Seg, k.Mount, k.Addrs, k.Baseline)
+	return fmt.Sprintf("faults=[%s] announced=%v seg=%d mount=%s addrs=%s baseline=%s max-async=%d", strings.Join(fs, ","), k.Announced, k.Seg, k.Mount, k.Addrs, k.Baseline, k.MaxAsync)
 }
 
 // classification key used for known findings
@@ -242,6 +243,9 @@ func runC04(c *vf.Ctx) {
 		default:
 			k.Addrs = "one"
 		}
+		if k.Announced && r.Intn(3) == 0 {
+			k.MaxAsync = 1 // a failed sync must give its slot back, or the re-announcement never gets one
+		}
 		if k.Mount == MountStream {
 			k.Addrs = "one" // (a libp2p peer is dialled as a whole; there is no per-address failover to script)
 		}
@@ -426,6 +430,10 @@ func c04One(c *vf.Ctx, sub string, i int, env *c04Env, k c04Case) {
 	}
 	if k.Announced {
 		opts = append(opts, dagsync.RecvAnnounce(""))
+	}
+	if k.MaxAsync > 0 {
+		opts = append(opts, dagsync.MaxAsyncConcurrency(k.MaxAsync))
+		c.Inc("announced_cases_with_a_concurrency_limit")
 	}
 	var s *dagsync.Subscriber
 	var err error
